@@ -101,9 +101,11 @@ Calls ==
 
 \* DKG message handlers: arbitrary tag, payload size class and origin at every phase
 Tags   == {0, 1, 2, 3, 4, 255}
-Sizes  == {"none", "1", "31", "32", "33", "vec-1", "vec", "vec+1", "huge"}
+Sizes  == {"none", "1", "2", "3", "31", "32", "33", "34", "35", "vec-1", "vec", "vec+1", "huge"}   \* total message lengths; 2 = a complaint, 33 = a share, 34 = a complaint answer
 Origs  == {-1, 0, 1, 2, 3, 256, 258, -255}      \* incl. out-of-range values congruent to an index modulo 256
-Phases == {"new", "started", "timeout1", "timeout2", "ended"}
+Phases == {"new", "started", "timeout1", "timeout2", "ended",
+           "restarted",       \* Start again after a failed End (C10 leaves reuse unspecified, C09 does not list it among the exceptions: no panic)
+           "rerun"}           \* Start again after a complete, successful run
 Roles  == {"other", "dealer"}                    \* the receiving instance is a plain participant / the dealer (who answers complaints)
 DKGMessages == {[fn |-> "DKGMessage", a |-> p, b |-> ph, c |-> <<ch, tg, sz, o, rl>>, expect |-> "any-or-reject"] :
                   p \in {"fvss", "qual", "jf"}, ph \in Phases, ch \in {"b", "p"}, tg \in Tags, sz \in Sizes, o \in Origs, rl \in Roles}
